@@ -360,7 +360,7 @@ pub fn script(kind_arg: &str, seed: u64, count: usize) -> Vec<J> {
         let depth = if n % 7 == 0 { 4 } else { 3 };
         let mut d = g.doc(depth, 4);
         // now and then a wide document: hundreds of tiny elements, many of them empty containers
-        if matches!(kind, "codec" | "decode" | "acc") && n % 151 == 150 {
+        if matches!(kind, "codec" | "decode" | "acc" | "edit") && n % 151 == 150 {
             let w = g.r.gen_range(530..700);
             let items: Vec<Value> = (0..w).map(|i| match (i + n) % 12 { 0 => Value::Null, 1 => Value::Number(Number::UInt64(i as u64)), 2 => Value::Bool(i % 2 == 0), k if k % 2 == 0 => Value::Array(vec![]), _ => Value::Object(BTreeMap::new()) }).collect();
             d = if g.r.gen() { Value::Array(items) } else { Value::Object(items.into_iter().enumerate().map(|(i, v)| (format!("k{i:03}"), v)).collect()) };
